@@ -6,6 +6,13 @@ sys.path.insert(0, HERE)
 import manifest_src as M
 
 props = [json.loads(l)["id"] for l in open(os.path.join(HERE, "..", "properties.jsonl"))]
+import glob
+for f in sorted(glob.glob(os.path.join(HERE, "..", "checks", "*.manifest.json"))):
+    pid = os.path.basename(f).split(".")[0].upper()
+    M.CHECKS[pid] = json.load(open(f))
+served = sorted(M.CHECKS)
+for e in M.ENGINES:
+    e["serves_properties"] = served
 checks = []
 for pid in props:
     if pid in M.CHECKS:
